@@ -55,6 +55,18 @@ theorem tickend_sim {w : World} (hw : WheelInv w) (hq : Quiet w) (hcn : w.cot = 
   · intro p hp
     exact hs.pendWheel p (List.mem_filter.1 hp).1
 
+theorem applyOp_sim {w : World} (hr : Rest w) (hs : Sim false w) (self : Nat) (op : Op) :
+    Sim false (applyOp w self op) := by
+  unfold applyOp
+  split
+  · exact Sim.emit (w := w) rfl hs
+  · rename_i hd
+    have := runOps_sim hr.1 hs self [op] (by simpa using hd)
+    simp only []
+    split
+    · exact Sim.emit (w := (runOps w self [op]).1) rfl this
+    · exact this
+
 theorem stepCmd_sim (sc : Scripts) {w : World} (hr : Rest w) (hs : Sim false w) (c : Cmd) :
     Sim false (stepCmd sc w c) := by
   cases c with
@@ -75,16 +87,12 @@ theorem stepCmd_sim (sc : Scripts) {w : World} (hr : Rest w) (hs : Sim false w) 
     split
     · exact Sim.emit (w := w) rfl hs
     · exact hs
-  | op self op =>
-    show Sim false (if isDead w self then emit w (.opDestructed self)
-      else if (runOps w self [op]).2 then emit (runOps w self [op]).1 (.opErr self) else (runOps w self [op]).1)
-    split
-    · exact Sim.emit (w := w) rfl hs
-    · rename_i hd
-      have := runOps_sim hr.1 hs self [op] (by simpa using hd)
-      split
-      · exact Sim.emit (w := (runOps w self [op]).1) rfl this
-      · exact this
+  | op self op => exact applyOp_sim hr hs self op
+  | gop g self op =>
+    have hr1 : Rest { w with giver := liveGiver w (some g) } := hr.congr rfl rfl rfl rfl
+    have hs1 : Sim false { w with giver := liveGiver w (some g) } := SimJ.congr (w := w) hs rfl rfl rfl rfl rfl
+    exact SimJ.congr (w := applyOp { w with giver := liveGiver w (some g) } self op) (applyOp_sim hr1 hs1 self op)
+      rfl rfl rfl rfl rfl
 
 theorem runCmds_sim (sc : Scripts) {w : World} (hr : Rest w) (hs : Sim false w) (cs : List Cmd) :
     Sim false (runCmds sc w cs) := by
@@ -181,32 +189,55 @@ theorem handles_fit_int (sc : Scripts) (cmds : List Cmd) (hb : (runCmds sc World
   generalize (runCmds sc World.init cmds).unique = u at *
   wheel_omega
 
+/-- the efuns return `(int) time_left (...)`; the model returns the unbounded value.  **Explicit side condition**
+    under which the C conversion is the identity: the entry's second lies within 2^31 seconds of `current_time`
+    (delays and backlog below 2^31).  `trunc32` is the generated C `(int)` conversion. -/
+theorem time_left_fits_int (sc : Scripts) (cmds : List Cmd) (s : Nat) (p : Int × Call)
+    (hp : p ∈ cum 0 ((runCmds sc World.init cmds).slots s))
+    (hb : -(2147483648 : Int) ≤ p.2.due - (runCmds sc World.init cmds).now ∧
+      p.2.due - (runCmds sc World.init cmds).now < 2147483648) :
+    Gen.C10.trunc32 (timeLeft (runCmds sc World.init cmds) s p.1) = timeLeft (runCmds sc World.init cmds) s p.1 := by
+  rw [time_left_exact sc cmds s p hp]
+  unfold Gen.C10.trunc32
+  omega
+
 /-! ### non-vacuity -/
 
 /-- a script table used by the examples: the callback of (o1, "a") schedules "b" into the slot being swept,
     removes "c" and raises an error -/
 def exScripts : Scripts := fun o tag =>
-  if o = 1 ∧ tag = "a" then [.co 1 32 "b", .rmh "c", .fnm 2, .info, .err] else []
+  if o = 1 ∧ tag = "a" then [.co 1 32 "b" true, .rmh "c", .fnm 2, .info, .err] else []
 
 def exCmds : List Cmd :=
-  [.op 1 (.co 0 1 "a"), .op 1 (.co 2 5 "c"), .op 2 (.co 2 70 "d"), .op 2 (.dest 2), .adv 3, .sweep,
+  [.gop 3 1 (.co 0 1 "a" false), .op 1 (.co 2 5 "c" true), .op 2 (.co 2 70 "d" true), .op 2 (.dest 2), .adv 3, .sweep,
    .op 1 (.fh "b"), .adv 40, .sweep, .adv 100, .sweep]
 
-/-- the example history is non-trivial: 2 fires (a, b), a removal from inside a callback, an error,
-    a destructed owner's entry dropped -/
-example : (events (runCmds exScripts World.init exCmds)).length = 18 := by decide
+/-- the example history is non-trivial: 2 fires (a, b: a function-pointer call_out scheduled from inside a callback
+    into the slot being swept), a removal from inside a callback, an error, a destructed owner's function-pointer
+    call_out dropped with the "owner destructed" error; this_player() = o3 is saved with "a", restored for its
+    callback and inherited by "b" -/
+example : (events (runCmds exScripts World.init exCmds)).length = 19 := by decide
 
 example : (events (runCmds exScripts World.init exCmds)).filter (fun e => match e with | .fire .. => true | _ => false)
-    = [.fire 3 1 0 "a", .fire 43 1 1 "b"] := by decide
+    = [.fire 3 1 0 "a" (some 3), .fire 43 1 1 "b" (some 3)] := by decide
 
 /-- the side condition of `handles_fit_int` is satisfiable on the non-trivial example history -/
 example : (runCmds exScripts World.init exCmds).unique < 2 ^ 31 / N := by decide
 
+/-- the side condition of `time_left_fits_int` holds for the three entries pending before the first sweep of the
+    example history -/
+example : (List.range N).all (fun s => (cum 0 ((runCmds exScripts World.init (exCmds.take 5)).slots s)).all (fun p =>
+    decide (-(2147483648 : Int) ≤ p.2.due - (runCmds exScripts World.init (exCmds.take 5)).now ∧
+      p.2.due - (runCmds exScripts World.init (exCmds.take 5)).now < 2147483648))) = true := by decide
+example : ((List.range N).map (fun s => ((runCmds exScripts World.init (exCmds.take 5)).slots s).length)).sum = 3 := by
+  decide
+
 /-- the oracle is not vacuous: it rejects a late fire, a repeated fire, a wrong answer, a missed call_out -/
-example : judgeEv [.co 0 1 0 5 "a" 37, .tickbegin 9, .fire 9 1 0 "a", .fire 9 1 0 "a", .tickend 9] ≠ [] := by decide
-example : judgeEv [.co 0 1 0 5 "a" 37, .tickbegin 4, .fire 4 1 0 "a", .tickend 4] ≠ [] := by decide
-example : judgeEv [.co 0 1 0 5 "a" 37, .fh 1 1 "a" 5] ≠ [] := by decide
-example : judgeEv [.co 0 1 0 5 "a" 37, .tickbegin 5, .tickend 5] ≠ [] := by decide
-example : judgeEv [.co 0 1 0 5 "a" 37, .rmh 2 1 "a" 3, .tickbegin 5, .fire 5 1 0 "a", .tickend 5] ≠ [] := by decide
+example : judgeEv [.co 0 1 0 5 "a" 37 false none, .tickbegin 9, .fire 9 1 0 "a" none, .fire 9 1 0 "a" none, .tickend 9] ≠ [] := by decide
+example : judgeEv [.co 0 1 0 5 "a" 37 false none, .tickbegin 4, .fire 4 1 0 "a" none, .tickend 4] ≠ [] := by decide
+example : judgeEv [.co 0 1 0 5 "a" 37 false none, .fh 1 1 "a" 5] ≠ [] := by decide
+example : judgeEv [.co 0 1 0 5 "a" 37 false none, .tickbegin 5, .tickend 5] ≠ [] := by decide
+example : judgeEv [.co 0 1 0 5 "a" 37 false (some 2), .tickbegin 5, .fire 5 1 0 "a" none, .tickend 5] ≠ [] := by decide
+example : judgeEv [.co 0 1 0 5 "a" 37 false none, .rmh 2 1 "a" 3, .tickbegin 5, .fire 5 1 0 "a" none, .tickend 5] ≠ [] := by decide
 
 end NV.C10
